@@ -107,6 +107,13 @@ func (t *Thread) RunContinuation(c Cont) (err error) {
 			}
 			err = rtErr.AddContext(c, -1)
 			errContCount++
+			if t.messageHandler != nil && t.messageHandlerThread != nil && t.messageHandlerThread != t {
+				// The message handler of the current context belongs to
+				// another thread (the contexts are shared by all threads): an
+				// error in a coroutine resumed from there goes to the
+				// coroutine boundary first, unhandled.
+				return err
+			}
 			if t.messageHandler != nil {
 				if errContCount > maxErrorsInMessageHandler {
 					return newHandledError(errErrorInMessageHandler)
@@ -337,6 +344,9 @@ func (t *Thread) sendResumeValues(args []Value, err error, exception interface{}
 // See quotas.md for details about this API.
 func (t *Thread) CallContext(def RuntimeContextDef, f func() error) (ctx RuntimeContext, err error) {
 	t.PushContext(def)
+	if def.MessageHandler != nil {
+		t.messageHandlerThread = t
+	}
 	c, h := t.CurrentCont(), t.closeStack.size()
 	defer func() {
 		ctx = t.PopContext()
